@@ -743,7 +743,7 @@ class RequestHandler(BaseProtocol, Generic[_Request]):
                     break
 
                 # notify server about keep-alive
-                self._keepalive = bool(resp.keep_alive)
+                self._keepalive = bool(resp.keep_alive) and not resp._close_delimited
 
                 # check payload
                 if not payload.is_eof():
